@@ -1400,7 +1400,7 @@ RULES = {
     "C04": "all parents <= 4x4 (5x5), sampled windows incl. nested, 27 mutating operations with valid and out-of-range arguments, and mutable iteration (rows_mut / cells_mut / col_mut) along sampled (all, thorough) two-step words over n,b,N0,N1,B0,B1 then collect from either end, each from a fresh root; the whole parent is compared" + NT,
     "C05": "random histories on ledgered cells and zero-sized elements; every conversion (into_vec/box/iter k, clone, to_owned, constructors replacing an array) on all shapes <=3x3; drop list, live count and double-drop counter compared after every step and at the final drop" + NT,
     "C06": "all shapes <= 4x4 (5x5) x index 0..dim+1 x length 0..dim+1 x {u32,cell,zst} x {exact, reserved, shrunk} capacity; push twice; iterators that claim the right length but yield one item fewer / more; random build-up histories from the empty array" + NT,
-    "C07": "all shapes <= 4x4 (5x5) x every index x (front,back) consumption splits with len() in between + random words over n,b,l x {u32,cell,zst}; out-of-range and huge indices; pop until empty and beyond" + NT,
+    "C07": "all shapes <= 4x4 (5x5) x every index x (front,back) consumption splits with len() in between + random words over n,b,l x {u32,cell,zst}; out-of-range and huge indices; drains consumed by value through fold / rfold after a prefix; pop until empty and beyond" + NT,
     "C08": "all shapes <= 3x3 (4x4) x receivers (root, ext, sampled views, nested, slice-built) x rows/rows_mut x (sampled exhaustive words to depth 3 over n,b,l,N0,N1,B0,B1 + random words of length <=9 with arguments 2^32, 2^63, 2^64-1, ceil(2^64/stride)+-1 and a consuming last step)" + NT,
     "C09": "as C08 for col/col_mut with every column index 0..C (out of range included) and index steps",
     "C10": "as C08 for cells/cells_mut/iter_ref/iter_mut",
@@ -1419,6 +1419,7 @@ RULES = {
 def rule(pid, tier):
     return (RULES.get(pid, "see DESIGN.md §6/" + pid) +
             "; wherever this says 'all shapes <= NxN' the threshold-crossing shapes 9x2, 2x9, 17x3, 3x17 (larger scope: also 33x2, 2x33, 65x3, 3x65) are included"
+            "; a sample (12%, larger scope 25%) of the u32 cases is repeated on the 96-byte Copy kind `wide` and of the cell cases on the 96-byte ledgered kind `widecell`"
             + f"; tier={tier}")
 
 
